@@ -1173,11 +1173,42 @@ func (w *Writer) resolveExpressionTypeHandle(fn *ir.Function, handle ir.Expressi
 			return &ty
 		}
 	case ir.ExprAccessIndex:
-		return w.resolveExpressionTypeHandle(fn, e.Base)
+		return w.resolveAccessedTypeHandle(fn, e.Base, &e.Index)
 	case ir.ExprAccess:
-		return w.resolveExpressionTypeHandle(fn, e.Base)
+		return w.resolveAccessedTypeHandle(fn, e.Base, nil)
 	case ir.ExprLoad:
 		return w.resolveExpressionTypeHandle(fn, e.Pointer)
+	}
+	return nil
+}
+
+// resolveAccessedTypeHandle resolves the type selected from base by a struct member access
+// (index != nil) or an array element access. Returns nil for vector/matrix components,
+// which have no type handle of their own.
+func (w *Writer) resolveAccessedTypeHandle(fn *ir.Function, base ir.ExpressionHandle, index *uint32) *ir.TypeHandle {
+	baseTy := w.resolveExpressionTypeHandle(fn, base)
+	if baseTy == nil || int(*baseTy) >= len(w.module.Types) {
+		return nil
+	}
+	inner := w.module.Types[*baseTy].Inner
+	if ptr, ok := inner.(ir.PointerType); ok {
+		if int(ptr.Base) >= len(w.module.Types) {
+			return nil
+		}
+		inner = w.module.Types[ptr.Base].Inner
+	}
+	switch t := inner.(type) {
+	case ir.StructType:
+		if index != nil && int(*index) < len(t.Members) {
+			ty := t.Members[*index].Type
+			return &ty
+		}
+	case ir.ArrayType:
+		ty := t.Base
+		return &ty
+	case ir.BindingArrayType:
+		ty := t.Base
+		return &ty
 	}
 	return nil
 }
